@@ -421,4 +421,27 @@ theorem toplevel_edits_eq (locsI locsT : List (Pos × Pos)) (hne : locsT ≠ [])
     toplevelEdits locsI locsT rnd s = importEdits locsT rnd s :=
   toplevelEdits_off_nonempty [] locsI locsT hne rnd s
 
+/-- **Which errors yield a quick fix** (lib.rs:505-530): offered iff the error covers the request, the
+class was looked up in the document itself and the candidate module declares the name; and then the
+edits are the auto-import edits on the *document's own* import list, so `auto_import_text` describes
+the edited document.  In particular a class imported from a module that does not export it
+(`lookup ≠ docModule`) never gets a quick fix computed against another module's imports. -/
+theorem code_action_offered_iff {μ : Type} [DecidableEq μ] (covers : Bool) (lookup docModule : μ)
+    (declaresName : Bool) (doc : Doc) (docLocs : List (Pos × Pos)) (rnd : α → Text) (docImports : List α) (x : α) :
+    (codeActionOffered covers lookup docModule declaresName = true ↔
+      covers = true ∧ lookup = docModule ∧ declaresName = true) ∧
+    (codeActionOffered covers lookup docModule declaresName = true →
+      ∃ eds, codeActionEdits covers lookup docModule declaresName docLocs rnd docImports x = some eds ∧
+        autoImportEdits docLocs rnd docImports x = some eds) ∧
+    (codeActionOffered covers lookup docModule declaresName = false →
+      codeActionEdits covers lookup docModule declaresName docLocs rnd docImports x = none) := by
+  refine ⟨by simp [codeActionOffered, and_assoc], ?_, ?_⟩
+  · intro h
+    obtain ⟨eds, he, _⟩ := auto_import_text doc docLocs rnd docImports x
+    exact ⟨eds, by simp [codeActionEdits, h, he], he⟩
+  · intro h; simp [codeActionEdits, h]
+
+example : codeActionOffered true "Doc" "Doc" true = true := by decide
+example : codeActionOffered true "A" "Doc" true = false := by decide
+
 end SamVerif.Differ
